@@ -6,15 +6,18 @@ META = dict(
               "connect_ex / recv answers, clock advance per service call) of real Client / Patron / TcpClientStack over socket "
               "doubles with a manual store clock; bounded-liveness oracle evaluated on every path",
     text="Subjects: tcp Client (serviceConnect+serviceReceives+serviceTxes per call), http Patron (serviceAll), TcpClientStack "
-         "(serviceAll), each reconnectable and not, with the server initially up or down. Before each of the first H service "
-         "calls the environment chooses: nothing / toggle the server (going down also kills its connections) / close the "
-         "current connection from the server side; the clock advance (timeout, timeout/2, 0); and during the call connect_ex "
-         "may answer EINPROGRESS or ECONNREFUSED instead of its natural result and an idle recv may answer ECONNRESET. All "
-         "schedules with <= 3 deviations (H=6, quick) / <= 4 (H=9, thorough) are run; then the environment stays good "
-         "(server listening, natural answers, clock advancing one timeout per call) for 6 more calls. Oracle: a reconnectable "
-         "subject is connected to a live socket - connected, not cut off, .ca/.ha equal to the double's getsockname()/"
-         "getpeername(), peer open - within 4 calls of the good period and stays so; a subject that is not reconnectable "
-         "constructs no socket after it has been cut off; nothing raises.",
+         "(serviceAll), each reconnectable and not, with the server initially up or down. Two connect variants: 'immediate' "
+         "(connect_ex to a listening server answers 0 at once; clock default one timeout per call, alternatives T/2, 0) and "
+         "'realistic' (the first connect_ex on a fresh socket answers EINPROGRESS and the next one completes, as a "
+         "non-blocking connect does; clock default T/4 per call, alternatives T, 0 and 10T for long uptimes/outages; costs one "
+         "deviation). Before each of the first H service calls the environment chooses: nothing / toggle the server (going "
+         "down also kills its connections) / close the current connection from the server side; the clock advance; and during "
+         "the call connect_ex may answer EINPROGRESS, ECONNREFUSED or success out of turn and an idle recv may answer "
+         "ECONNRESET. All schedules with <= 3 deviations (H=6, quick) / <= 4 (H=9, thorough) are run; then the environment "
+         "stays good for 6 more calls (server listening, natural answers; immediate: clock +T per call; realistic: +T once so "
+         "the timeout has elapsed, then +T/4 per call). Oracle: a reconnectable subject is connected to a live socket - "
+         "connected, not cut off, .ca/.ha equal to the double's getsockname()/getpeername(), peer open - from the 4th good "
+         "call on; a subject that is not reconnectable constructs no socket after it has been cut off; nothing raises.",
     note="Doubles replace loopback sockets so that the harness owns the schedule. 'Service call' for a bare Client is the "
          "triple serviceConnect/serviceReceives/serviceTxes an application loop makes. Horizon, deviation bound and the "
          "4-call liveness window are the stated bounds; longer outages are not explored.",
@@ -26,7 +29,8 @@ from mc import core, net
 PORT = 7000
 HA = (net.LOOP, PORT)
 T = 1.0
-ADV = (T, T / 2, 0.0)
+ADV = (T, T / 2, 0.0)                 # variant "immediate": default one timeout per service call
+ADV_REAL = (T / 4, T, 0.0, 10 * T)    # variant "realistic": serviced 4x per timeout; 10T = long uptime / outage
 SUBJECTS = ("Client", "Patron", "TcpClientStack")
 BOUNDS = dict(quick=dict(dev=3, H=6), thorough=dict(dev=4, H=9))
 CLOSING = 6
@@ -46,6 +50,31 @@ def init():
     from ioflo.aio.proto import stacking
     FSM = net.FakeSocketModule().install()
     M = dict(clienting=clienting, hclienting=hclienting, stacking=stacking)
+
+
+class Policy:
+    """ChooserPolicy plus the 'realistic' connect variant: the natural answer of the first connect_ex
+    on a fresh socket towards a listening server is EINPROGRESS, the next call completes (0) - what a
+    non-blocking connect does.  frozen: no more choice points, natural answers only (good phase)."""
+
+    def __init__(self, ch, realistic):
+        self.ch = ch
+        self.realistic = realistic
+        self.frozen = False
+
+    def decide(self, sock, op, cands):
+        if len(cands) == 1:
+            return 0
+        order = list(range(len(cands)))
+        if self.realistic and op == "connect_ex" and cands[0] == net.RC(0) and sock.state in ("new", "refused"):
+            for i, c in enumerate(cands):
+                if c == net.RC(errno.EINPROGRESS):
+                    order.remove(i)
+                    order.insert(0, i)
+                    break
+        if self.frozen:
+            return order[0]
+        return order[self.ch.choose(len(cands), "%s.%s" % (sock.name, op), 0, 1)]
 
 
 class Env:
@@ -148,11 +177,14 @@ def where_of(ex):
 
 
 def execute(ch, subject, reconnectable, up0, H, part, states):
-    fn = net.FakeNet(chooser=ch)
+    realistic = ch.choose(2, "connect-variant", 0, 1) == 1
+    pol = Policy(ch, realistic)
+    adv = ADV_REAL if realistic else ADV
+    fn = net.FakeNet(policy=pol)
     FSM.net = fn
     ck = net.clock()
     env = Env(fn, up0)
-    sched = []
+    sched = ["connect=realistic"] if realistic else []
     faulty = net.Menu(connect=(errno.EINPROGRESS, errno.ECONNREFUSED), recv_idle_errnos=(errno.ECONNRESET,))
     fn.menu = faulty
     try:
@@ -168,7 +200,8 @@ def execute(ch, subject, reconnectable, up0, H, part, states):
         closing = step >= H
         if step == H:        # from now on the environment is good
             env.up()
-            fn.menu = net.Menu()
+            pol.frozen = True
+            fn.menu = net.Menu(connect=(errno.EINPROGRESS,)) if realistic else net.Menu()
             for s in fn.sockets:
                 s.menu = fn.menu
         if not closing:
@@ -179,9 +212,10 @@ def execute(ch, subject, reconnectable, up0, H, part, states):
                 (env.down if env.listening else env.up)()
             elif ev == "close":
                 env.close_current()
-            dt = ADV[ch.choose(len(ADV), "dt", 0, 1)]
+            dt = adv[ch.choose(len(adv), "dt", 0, 1)]
         else:
-            ev, dt = "-", T
+            # immediate: one timeout per call; realistic: the timeout elapses once, then 4 calls per timeout
+            ev, dt = "-", (T if (not realistic or step == H) else T / 4)
         ck.advance(dt)
         mark = len(fn.log)
         try:
@@ -200,7 +234,7 @@ def execute(ch, subject, reconnectable, up0, H, part, states):
         why = live(subject, obj, h)
         if why is None:
             was_connected = True
-        st = (subject, reconnectable, bool(h.connected), bool(h.cutoff), h.cs is None,
+        st = (subject, reconnectable, realistic, bool(h.connected), bool(h.cutoff), h.cs is None,
               None if h.cs is None else raw_of(h.cs).state, env.listening, env.has_open(),
               round(h.timer.remaining, 3), closing, why is None)
         states.add(hash(st))
@@ -210,23 +244,26 @@ def execute(ch, subject, reconnectable, up0, H, part, states):
             k = step - H + 1          # number of good calls made so far
             if reconnectable and k >= WINDOW and why is not None:
                 return ("not-reconnected",
-                        "%d service calls into a good environment (server listening, connects succeed, clock +%g per "
-                        "call) the client is still not connected to a live socket: %s" % (k, T, why), sched, fn)
+                        "%d service calls into a good environment (server listening, %s) the client is still not "
+                        "connected to a live socket: %s"
+                        % (k, "connect_ex answers EINPROGRESS then 0, clock +%g then +%g per call" % (T, T / 4) if realistic
+                           else "connects succeed at once, clock +%g per call" % T, why), sched, fn)
     if not reconnectable and cut_at is not None:
         made = [s.name for s in fn.sockets[cut_at:] if not s.name.startswith("listener")]
         made = [n for n in made if "<" not in n]       # server-side halves are created by the double
         if made:
             return ("reopened-after-cutoff", "not reconnectable, cut off, yet %d new socket(s) were constructed "
                     "afterwards: %s" % (len(made), made), sched, fn)
-    part.outcome("%s %s: %s" % (subject, "reconnectable" if reconnectable else "plain",
-                                "live at end" if why is None else "not connected at end"))
+    part.outcome("%s %s %s: %s" % (subject, "reconnectable" if reconnectable else "plain",
+                                   "realistic" if realistic else "immediate",
+                                   "live at end" if why is None else "not connected at end"))
     return None
 
 
 def trim(sched):
     """Drop the uneventful tail (good environment, nothing happening) from a printed schedule."""
     out = list(sched)
-    while len(out) > 1 and out[-1] == "-/+%g/." % T:
+    while len(out) > 1 and out[-1] in ("-/+%g/." % T, "-/+%g/." % (T / 4)):
         out.pop()
     return out
 
